@@ -233,3 +233,40 @@ pub mod tokenexec {
 }
 pub use tokenexec::*;
 
+#[allow(unused_imports)]
+pub mod metatoken {
+    use soroban_sdk::{contract, contractimpl, contracttype, Address, Env, String};
+
+    #[contracttype]
+    pub enum MetaKey {
+        Name,
+        Symbol,
+        Decimals,
+    }
+
+    /// A "token" whose metadata is whatever the test says (possibly unrepresentable remotely).
+    #[contract]
+    pub struct MetaToken;
+
+    #[contractimpl]
+    impl MetaToken {
+        pub fn __constructor(env: Env, name: String, symbol: String, decimals: u32) {
+            env.storage().instance().set(&MetaKey::Name, &name);
+            env.storage().instance().set(&MetaKey::Symbol, &symbol);
+            env.storage().instance().set(&MetaKey::Decimals, &decimals);
+        }
+        pub fn name(env: Env) -> String {
+            env.storage().instance().get(&MetaKey::Name).unwrap()
+        }
+        pub fn symbol(env: Env) -> String {
+            env.storage().instance().get(&MetaKey::Symbol).unwrap()
+        }
+        pub fn decimals(env: Env) -> u32 {
+            env.storage().instance().get(&MetaKey::Decimals).unwrap()
+        }
+        pub fn balance(_env: Env, _id: Address) -> i128 {
+            0
+        }
+    }
+}
+pub use metatoken::*;
